@@ -71,7 +71,14 @@ KnownDead(nm, a, t) ==
 
 (* Sequences of commands on one connection that need keywords or several steps *)
 Specials ==
-  { [seq |-> <<C("RPUSH", <<ka, x, y>>), C("LMPOP", <<N(1), ka, W("LEFT"), W("COUNT"), AMax>>)>>, known |-> "D_LMPOP_HUGE_COUNT_PANICS"],
+  { \* ranges and counts that reach beyond the ends of a collection; a collection emptied by its last removal
+    [seq |-> <<C("RPUSH", <<ka, x, y, x>>), C("LTRIM", <<ka, N(5), N(10)>>), C("LLEN", <<ka>>)>>, known |-> "none"],
+    [seq |-> <<C("RPUSH", <<ka, x, y, x>>), C("LTRIM", <<ka, N(3), N(3)>>), C("LTRIM", <<ka, N(-100), N(-50)>>), C("LRANGE", <<ka, N(7), N(9)>>), C("LINDEX", <<ka, N(3)>>), C("LSET", <<ka, N(3), x>>)>>, known |-> "none"],
+    [seq |-> <<C("HSET", <<ka, f, x, x, y>>), C("HDEL", <<ka, f, x>>), C("HRANDFIELD", <<ka>>), C("HRANDFIELD", <<ka, N(-2)>>), C("HLEN", <<ka>>)>>, known |-> "none"],
+    [seq |-> <<C("SADD", <<ka, x, y>>), C("SREM", <<ka, x, y>>), C("SRANDMEMBER", <<ka>>), C("SRANDMEMBER", <<ka, N(-2)>>), C("SPOP", <<ka>>)>>, known |-> "none"],
+    [seq |-> <<C("SADD", <<ka, x>>), C("SPOP", <<ka>>), C("SRANDMEMBER", <<ka, N(-3)>>), C("SMOVE", <<ka, kb, x>>)>>, known |-> "none"],
+    [seq |-> <<C("RPUSH", <<ka, x>>), C("LPOP", <<ka>>), C("LPOP", <<ka>>), C("RPOPLPUSH", <<ka, ka>>), C("LMPOP", <<N(1), ka, W("RIGHT")>>)>>, known |-> "none"],
+    [seq |-> <<C("RPUSH", <<ka, x, y>>), C("LMPOP", <<N(1), ka, W("LEFT"), W("COUNT"), AMax>>)>>, known |-> "D_LMPOP_HUGE_COUNT_PANICS"],
     [seq |-> <<C("SET", <<ka, x>>), C("SCAN", <<N(0), W("COUNT"), AMax>>)>>, known |-> "D_SCAN_HUGE_COUNT_PANICS"],
     [seq |-> <<C("HSET", <<ka, f, x>>), C("HSCAN", <<ka, N(0), W("COUNT"), AMax>>)>>, known |-> "D_SCAN_HUGE_COUNT_PANICS"],
     [seq |-> <<C("SADD", <<ka, x>>), C("SSCAN", <<ka, N(0), W("COUNT"), AMax>>)>>, known |-> "D_SCAN_HUGE_COUNT_PANICS"],
